@@ -184,6 +184,8 @@ CRATE_PROPS = {
     'C06': _crate(methods={'from_str'}, only=lambda g: g.d['family'] != 'string'),
     'C09': _crate(methods={'arbitrary', 'size_hint'}),
     'C12': _crate(only=lambda g: g.d['family'] == 'float' and bool({'Eq', 'Ord'} & set(g.d['derives']))),
+    # "every obtainable value is canonical" presupposes that values are obtainable through the constructor only
+    'C11': _crate(only=lambda g: not g.d.get('custom') and not any(x['kind'] == 'with' for x in g.d['sanitizers'])),
 }
 
 from . import witcat
